@@ -32,6 +32,13 @@ def programs(tier):
     yield ("dag-gate-emit", T.prog([T.route("gt", ["e0"], ["p", "END"], emit=["sig"]), T.fn("p", ["e0"], ["x0"]), T.fn("w1", ["e0"], ["w0"], wait_for=["sig"])]), e, dict(horizon=6))
     yield ("dag-interrupt-emit", T.prog([T.interrupt("ask", ["e0"], ["ans"], emit=["sig"], behav="answer"), T.fn("w1", ["e0"], ["w0"], wait_for=["sig"])]), e, dict(horizon=6, async_only=True))
     yield ("dag-two-signals", T.prog([T.fn("p1", ["e0"], ["a0"], emit=["s1"]), T.fn("p2", ["a0"], ["b0"], emit=["s2"]), T.fn("w1", ["e0"], ["w0"], wait_for=["s1", "s2"])]), e, dict(horizon=6))
+    # one signal with TWO producers (ordered by a data edge): the waiter is held back behind whichever of them is co-ready
+    yield (
+        "dag-signal-with-two-producers",
+        T.prog([T.fn("st1", ["e0"], ["a0"], emit=["stage_done"]), T.fn("st2", ["a0"], ["b0"], emit=["stage_done"]), T.fn("w1", ["e0"], ["w0"], wait_for=["stage_done"]), T.fn("w2", ["a0"], ["v0"], wait_for=["stage_done"])]),
+        e,
+        dict(horizon=6),
+    )
     # cycles
     chat = T.prog([T.fn("step", ["count"], ["count"], emit=["turn_done"], behav="env"), T.route("gt", ["count"], ["step", "END"], wait_for=["turn_done"])])
     yield ("loop-gate-waits-signal", chat, {"count": 0}, dict(horizon=H_))
